@@ -20,6 +20,7 @@ func (f *Frame) call(instr ssa.Instruction, c *ssa.CallCommon, result ssa.Value)
 	vc := f.vc
 	var res Val
 	term := false
+	f.siteCall(instr, c)
 	if c.IsInvoke() {
 		res, term = f.invoke(c, instr.Pos())
 	} else {
